@@ -68,3 +68,19 @@ Definition model_out (c : case) :=
   (m, model_str c,
    match model_str c with Some st => parse T (c_ns c) st | None => None end,
    parse T (c_ns c) (c_s2 c)).
+
+(* ---------- name-server store histories (any backend): model map vs what NameServer answered ---------- *)
+Record scase := { sc_ns : Z; sc_ops : list sop; sc_obs : list sobs }.
+
+Definition pair_text_eqb (a b : text * text) : bool := text_eqb (fst a) (fst b) && text_eqb (snd a) (snd b).
+Definition listing_incl (a b : list (text * text)) : bool := forallb (fun x => existsb (pair_text_eqb x) b) a.
+Definition sobs_eqb (a b : sobs) : bool :=
+  match a, b with
+  | ORegOk, ORegOk | ORegRejected, ORegRejected | ONone, ONone | OLookupBad, OLookupBad => true
+  | ODel x, ODel y => N.eqb x y
+  | OLookup x, OLookup y => opt_uri_eqb x y
+  | OListing x, OListing y => Nat.eqb (length x) (length y) && listing_incl x y && listing_incl y x
+  | _, _ => false
+  end.
+Definition model_store (c : scase) : list sobs := ns_run T (sc_ns c) [] (sc_ops c).
+Definition check_scase (c : scase) : bool := list_eqb sobs_eqb (model_store c) (sc_obs c).
